@@ -115,7 +115,6 @@ def useString : Use → String
 def b01 (b : Bool) : String := if b then "1" else "0"
 
 def render (s : St) : String :=
-  "jar=" ++ b01 s.jar ++ " pending=" ++ b01 s.pending ++ " t3=" ++ b01 s.t3 ++ " force=" ++ verString s.force ++
-  " altsvc=" ++ useString (onAltSvc s true false) ++ " forced=" ++ useString (onForced s)
+  "jar=" ++ b01 s.jar ++ " pending=" ++ b01 s.pending ++ " t3=" ++ b01 s.t3 ++ " force=" ++ verString s.force
 
 end Req.C07.ProtoOpts
